@@ -1473,6 +1473,7 @@ func main() {
 	}
 	sweepOflags()
 	sweepMethods()
+	cliStage()
 	worlds := []string{"ro-dir", "rec-dir", "gofs-osdir", "gofs-mapfs", "ro-dir-derived", "ro-dir-host-bits"}
 	var wg sync.WaitGroup
 	for i, name := range worlds {
